@@ -24,6 +24,7 @@ import (
 	sdk "github.com/cosmos/cosmos-sdk/types"
 	authtypes "github.com/cosmos/cosmos-sdk/x/auth/types"
 	bankkeeper "github.com/cosmos/cosmos-sdk/x/bank/keeper"
+	banktypes "github.com/cosmos/cosmos-sdk/x/bank/types"
 	abci "github.com/tendermint/tendermint/abci/types"
 	"github.com/tendermint/tendermint/libs/log"
 	tmproto "github.com/tendermint/tendermint/proto/tendermint/types"
@@ -188,6 +189,20 @@ func (s *state) opaque(e *env.Env, ctx sdk.Context, m graph.M) (string, string) 
 	return outcome, detail
 }
 
+// updateMsg builds the governance update of the minter or the distributor with a model payload.
+func (s *state) updateMsg(kind string, payload any) sdk.Msg {
+	if kind == "minter" {
+		p := s.meta.BuildParams(graph.Rec(payload))
+		return &mtypes.MsgUpdateParams{Authority: env.Gov(), MintDenom: p.MintDenom, StartTime: p.StartTime, Minters: p.Minters}
+	}
+	return &dtypes.MsgUpdateParams{Authority: env.Gov(), SubDistributors: distributor.BuildCfg(s.meta.P, s.ids, payload)}
+}
+
+// failingMsg passes ValidateBasic and fails in its handler (the payer does not own that much).
+func (s *state) failingMsg() sdk.Msg {
+	return banktypes.NewMsgSend(s.users["payer"].Addr, s.users["o1"].Addr, sdk.NewCoins(sdk.NewCoin("uc4e", sdk.NewInt(1000000000000))))
+}
+
 func (s *state) exportImport(e *env.Env, ctx sdk.Context) (*env.Env, sdk.Context, string, string) {
 	app := e.App
 	var gen map[string]json.RawMessage
@@ -316,6 +331,13 @@ func apply(w *walk.Worker, ctx sdk.Context, e *graph.Edge, path []*graph.Edge, g
 			fail("C13", "outcome", "chain.updatedist", "distributor parameter update accept/reject differs from the model ("+detail+")", want, outcome)
 			return ctx, fs, true
 		}
+	case "failedtx":
+		supBefore = s.project(en, ctx).Supply
+		outcome, detail := en.DeliverTx(ctx, s.updateMsg(graph.Str(act["kind"]), act["payload"]), s.failingMsg())
+		if outcome != "rejected" || !strings.HasPrefix(detail, "handler of message 1") {
+			fail("C13", "outcome", "chain.failedtx", "a transaction of a valid update and a failing message was expected to fail in its second message ("+detail+")", "rejected", outcome)
+			return ctx, fs, true
+		}
 	case "export":
 		supBefore = s.project(en, ctx).Supply
 		ne, nctx, sig, msg := s.exportImport(en, ctx)
@@ -359,7 +381,7 @@ func apply(w *walk.Worker, ctx sdk.Context, e *graph.Edge, path []*graph.Edge, g
 		w.Count("inexact")
 		return ctx, fs, len(fs) > 0
 	}
-	owner := map[string]string{"block": "C01", "export": "C12", "configure": "C12", "fee": "C03", "opaque": "C01", "updateminter": "C13", "updatedist": "C13"}[name]
+	owner := map[string]string{"block": "C01", "export": "C12", "configure": "C12", "fee": "C03", "opaque": "C01", "updateminter": "C13", "updatedist": "C13", "failedtx": "C13"}[name]
 	ems := graph.Rec(exp["ms"])
 	if o.Seq != graph.Num(ems["seq"]) || o.Minted != fmt.Sprint(graph.Num(ems["minted"])) || o.NHist != graph.Num(exp["nhist"]) {
 		p := owner
@@ -468,7 +490,9 @@ type HeightRecord struct {
 }
 
 // History executes one model history (a path of the graph) through real ABCI with Commit.
-func (s *state) History(path []*graph.Edge, g *graph.Graph) ([]HeightRecord, error) {
+// With restart, the application object is thrown away after every Commit and a new one is opened on the committed store:
+// whatever a node keeps in memory between blocks must not matter (a restarted or state-synced replica has none of it).
+func (s *state) History(path []*graph.Edge, g *graph.Graph, restart bool) ([]HeightRecord, error) {
 	var e *env.Env
 	var recs []HeightRecord
 	var ctx sdk.Context
@@ -481,6 +505,9 @@ func (s *state) History(path []*graph.Edge, g *graph.Graph) ([]HeightRecord, err
 		e.App.Commit()
 		recs = append(recs, HeightRecord{Height: ctx.BlockHeight(), AppHash: hex.EncodeToString(e.App.LastCommitID().Hash), Results: hex.EncodeToString(h.Sum(nil))})
 		h.Reset()
+		if restart {
+			e.Restart()
+		}
 	}
 	for _, ed := range path {
 		act := ed.Act
@@ -524,6 +551,9 @@ func (s *state) History(path []*graph.Edge, g *graph.Graph) ([]HeightRecord, err
 		case "updatedist":
 			outcome, detail, evs, _ := e.Deliver(ctx, &dtypes.MsgUpdateParams{Authority: env.Gov(), SubDistributors: distributor.BuildCfg(s.meta.P, s.ids, act["payload"])})
 			fmt.Fprintf(h, "UPDD|%s|%s|%v\n", outcome, detail, evs)
+		case "failedtx":
+			outcome, detail := e.DeliverTx(ctx, s.updateMsg(graph.Str(act["kind"]), act["payload"]), s.failingMsg())
+			fmt.Fprintf(h, "FTX|%s|%s\n", outcome, detail)
 		case "export":
 			// replicas keep running; exports are judged by C12
 		}
@@ -562,7 +592,7 @@ func Histories(file string, n, depth, repeat int, seed int64) (map[string][]Heig
 		for r := 0; r < repeat; r++ {
 			var recs []HeightRecord
 			var herr error
-			if p := env.Try(func() { recs, herr = s.History(path, g) }); p != "" || herr != nil {
+			if p := env.Try(func() { recs, herr = s.History(path, g, r%2 == 1) }); p != "" || herr != nil {
 				fs = append(fs, walk.Finding{Prop: "C10", Kind: "panic", Sig: "chain.history.panic", Msg: fmt.Sprintf("history panicked through ABCI: %s %v", p, herr), Path: walk.PathActs(path)})
 				break
 			}
@@ -572,7 +602,7 @@ func Histories(file string, n, depth, repeat int, seed int64) (map[string][]Heig
 				continue
 			}
 			if fmt.Sprint(first) != fmt.Sprint(recs) {
-				fs = append(fs, walk.Finding{Prop: "C11", Kind: "mismatch", Sig: "chain.replica.in-process", Msg: "two replicas in one process disagree on app hash / results", Path: walk.PathActs(path), Expected: first, Observed: recs})
+				fs = append(fs, walk.Finding{Prop: "C11", Kind: "mismatch", Sig: map[bool]string{false: "chain.replica.in-process", true: "chain.replica.restart"}[r%2 == 1], Msg: map[bool]string{false: "two replicas in one process disagree on app hash / results", true: "a replica restarted after every commit disagrees with one that kept running (app hash / results)"}[r%2 == 1], Path: walk.PathActs(path), Expected: first, Observed: recs})
 				break
 			}
 		}
